@@ -44,6 +44,7 @@ type State struct {
 	calls      []CallRec // ghost log of calls (contracted / intrinsic externals of interest)
 	dead       bool
 	loopMark   int    // index into calls at the last loop entry
+	loopNames  map[string]bool // callee names that may be called inside a loop entered on this path (immutable map, replaced on change)
 	retInLoops []int  // ordinals of the loops whose body contains the return that ended this path
 	loopsDone  []int  // ordinals of the (top-level function's) loops this path left through the header's exit edge
 	panics     string // non-empty: path ended in panic (reason)
@@ -55,7 +56,7 @@ func newState() *State {
 }
 
 func (s *State) clone() *State {
-	n := &State{cells: make(map[int]Val, len(s.cells)), worlds: make(map[int]*World, len(s.worlds)), dead: s.dead, panics: s.panics, loopMark: s.loopMark, retInLoops: s.retInLoops, loopsDone: s.loopsDone}
+	n := &State{cells: make(map[int]Val, len(s.cells)), worlds: make(map[int]*World, len(s.worlds)), dead: s.dead, panics: s.panics, loopMark: s.loopMark, loopNames: s.loopNames, retInLoops: s.retInLoops, loopsDone: s.loopsDone}
 	for k, v := range s.cells {
 		n.cells[k] = v
 	}
